@@ -38,6 +38,7 @@ import (
 	"net"
 	"os"
 	"path/filepath"
+	"reflect"
 	"runtime"
 	"strconv"
 	"strings"
@@ -59,6 +60,8 @@ const (
 	vfEps   = 100 * time.Millisecond  // bound on the latency of one BanIPNet call
 )
 
+var vfKeepSweeps = os.Getenv("VERIF_KEEP_SWEEPS") == "1"
+
 type vfAct struct {
 	Op  string `json:"op"`
 	C   int    `json:"c"`
@@ -79,6 +82,7 @@ type vfObs struct {
 
 type vfStepIn struct {
 	Act vfAct `json:"act"`
+	Obs vfObs `json:"obs"`
 }
 
 type vfPathIn struct {
@@ -697,6 +701,14 @@ func vfRunOnce(p vfPathIn, scratch string, seed int64, soon bool) (out vfPathOut
 		}
 		a, conc := e.exec(s.Act)
 		o := e.observe(&conc)
+		if conc != nil && !vfKeepSweeps && reflect.DeepEqual(o, s.Obs) {
+			// the spellings of an unremarkable sweep can be re-derived from
+			// pseed; they are kept where code and model differ
+			conc.Sweep = nil
+			if conc.Spelling == "" && conc.Duration == "" {
+				conc = nil
+			}
+		}
 		e.checkWindow()
 		if e.miss != "" {
 			return out, e.miss
@@ -754,15 +766,27 @@ func TestVerifBanStoreReplay(t *testing.T) {
 		}
 		paths = append(paths, p)
 	}
-	results := make([]vfPathOut, len(paths))
+	of, err := os.Create(outFn)
+	if err != nil {
+		t.Fatal(err)
+	}
+	w := bufio.NewWriter(of)
+	enc := json.NewEncoder(w)
+	var outMu sync.Mutex
+	var encErr error
 	var wg sync.WaitGroup
 	jobs := make(chan int)
-	for w := 0; w < nw; w++ {
+	for k := 0; k < nw; k++ {
 		wg.Add(1)
 		go func() {
 			defer wg.Done()
 			for i := range jobs {
-				results[i] = vfRunPath(paths[i], scratch, seed, soon)
+				r := vfRunPath(paths[i], scratch, seed, soon)
+				outMu.Lock()
+				if err := enc.Encode(&r); err != nil && encErr == nil {
+					encErr = err
+				}
+				outMu.Unlock()
 			}
 		}()
 	}
@@ -771,16 +795,8 @@ func TestVerifBanStoreReplay(t *testing.T) {
 	}
 	close(jobs)
 	wg.Wait()
-	of, err := os.Create(outFn)
-	if err != nil {
-		t.Fatal(err)
-	}
-	w := bufio.NewWriter(of)
-	enc := json.NewEncoder(w)
-	for i := range results {
-		if err := enc.Encode(&results[i]); err != nil {
-			t.Fatal(err)
-		}
+	if encErr != nil {
+		t.Fatal(encErr)
 	}
 	w.Flush()
 	of.Close()
